@@ -209,6 +209,27 @@ let handle (x : sx) : ostring =
       (match run_isect (nat_of_sx op) (Obj.magic (List.map smp a)) (Obj.magic (List.map smp b)) with
        | None -> "ISECT BAD"
        | Some out -> "ISECT " ^ OS.concat " " (List.map (fun (t, v) -> string_of_int (int_of_z t) ^ ":" ^ string_of_extz (Obj.magic v)) (Obj.magic out)))
+  | L [A "oisect"; op; L a; L b] ->
+      let tz_of s = if s = "inf" then TInf else T (z_of_int (int_of_string s)) in
+      let smp = function L [t; v] -> (tz_of (atom t), (Obj.magic (extz_of_string (atom v)) : v)) | _ -> failwith "sample" in
+      let show_t = function TInf -> "inf" | T z -> string_of_int (int_of_z z) in
+      let show_s (t, v) = show_t t ^ ":" ^ string_of_extz (Obj.magic v) in
+      let show_l l = OS.concat " " (List.map show_s l) in
+      (match Obj.magic (run_oisect (nat_of_sx op) (Obj.magic (List.map smp a)) (Obj.magic (List.map smp b))) with
+       | None -> "OISECT BAD"
+       | Some (((out, la), r1), r2) ->
+           "OISECT " ^ show_l out ^ " | LAST " ^ (match la with None -> "" | Some x -> show_s x) ^ " | R1 " ^ show_l r1 ^ " | R2 " ^ show_l r2)
+  | L [A "binrun"; op; L bs] ->
+      let tz_of s = if s = "inf" then TInf else T (z_of_int (int_of_string s)) in
+      let smp = function L [t; v] -> (tz_of (atom t), (Obj.magic (extz_of_string (atom v)) : v)) | _ -> failwith "sample" in
+      let show_t = function TInf -> "inf" | T z -> string_of_int (int_of_z z) in
+      let show_s (t, v) = show_t t ^ ":" ^ string_of_extz (Obj.magic v) in
+      let show_l l = OS.concat " " (List.map show_s l) in
+      let batch = function L [L a; L b] -> (List.map smp a, List.map smp b) | _ -> failwith "batch" in
+      (match Obj.magic (run_binrun (nat_of_sx op) (Obj.magic (List.map batch bs))) with
+       | None -> "BINRUN BAD"
+       | Some (((outs, l), r), lo) ->
+           "BINRUN " ^ OS.concat " ; " (List.map show_l outs) ^ " | L " ^ show_l l ^ " | R " ^ show_l r ^ " | LO " ^ (match lo with None -> "" | Some x -> show_s x))
   | L [A "info"; f] ->
       let f = formula_of_sx f in
       Printf.sprintf "HOR %d | BF %s | PAST %s | ISBOOL %s" (int_of_nat (run_hor f)) (show_bool (run_bounded_future f))
